@@ -76,8 +76,9 @@ func classify(t reflect.Type, ti *tinfo) {
 // ---- leaves ----
 
 type leaves struct {
-	nums []string
-	strs []string
+	nums    []string
+	strs    []string
+	hasUint bool
 }
 
 func ratOfFloat(f float64) string {
@@ -105,6 +106,7 @@ func srcLeaves(v reflect.Value, nc vh.NormCfg, l *leaves, timeAsStr, bytesAsStr 
 		l.nums = append(l.nums, big.NewInt(v.Int()).String())
 	case reflect.Uint, reflect.Uint8, reflect.Uint16, reflect.Uint32, reflect.Uint64, reflect.Uintptr:
 		l.nums = append(l.nums, new(big.Int).SetUint64(v.Uint()).String())
+		l.hasUint = true
 	case reflect.Float32:
 		if bytesAsStr { // json: a float32 is written as the shortest decimal that identifies it AS A float32
 			l.nums = append(l.nums, fmt.Sprintf("f32:%08x", math.Float32bits(float32(v.Float()))))
@@ -649,6 +651,12 @@ func (c *ctx) one(r *vh.Rng, idx int, wantModel bool) {
 		return
 	}
 	cj["tree"] = trunc(vh.Canon(g), 1500)
+	nF := vh.FormatNorm(F, oF)
+	// numbers and strings of the tree == those of the value
+	var sl, tl leaves
+	mkas, _ := oF["MapKeyAsString"].(bool)
+	srcLeaves(v, nF, &sl, F == "json" && mkas, F == "json")
+	treeLeaves(reflect.ValueOf(g), &tl)
 	// the option vector decides the Go types of the tree's nodes
 	kinds := map[string]bool{}
 	treeKinds(reflect.ValueOf(g), kinds)
@@ -658,6 +666,8 @@ func (c *ctx) one(r *vh.Rng, idx int, wantModel bool) {
 		bad = "RawToString:[]byte-leaf"
 	case n.signed && kinds["uint64"]:
 		bad = "SignedInteger:uint64-leaf"
+	case !n.signed && (F == "cbor" || F == "simple" || F == "binc") && sl.hasUint && !kinds["uint64"]:
+		bad = "SignedInteger-off:unsigned-leaf-not-uint64"
 	case n.mapStr && kinds["map[interface {}]interface {}"]:
 		bad = "MapType:map[interface{}]interface{}-node"
 	case !n.mapStr && F != "json" && kinds["map[string]interface {}"]:
@@ -671,12 +681,6 @@ func (c *ctx) one(r *vh.Rng, idx int, wantModel bool) {
 		sum.FailC("trans", "c15:"+F+":option-ignored:"+bad, "the generic tree holds a node of a Go type the schema-less options exclude", cj)
 		return
 	}
-	nF := vh.FormatNorm(F, oF)
-	// numbers and strings of the tree == those of the value
-	var sl, tl leaves
-	mkas, _ := oF["MapKeyAsString"].(bool)
-	srcLeaves(v, nF, &sl, F == "json" && mkas, F == "json")
-	treeLeaves(reflect.ValueOf(g), &tl)
 	if d := numsDiff(sl.nums, tl.nums); d != "" {
 		cj["diff"] = d
 		if F == "json" && hasBigIntegralFloat(v) {
